@@ -4,6 +4,7 @@ import (
 	"context"
 	"errors"
 	"fmt"
+	"net"
 	"sort"
 	"strings"
 	"sync"
@@ -63,6 +64,16 @@ type StormCaller struct {
 	Rel    int  `json:"rel,omitempty"`   // the done func is called from 1+Rel goroutines started together
 	Again  int  `json:"again,omitempty"` // and Again more times afterwards, one call at a time
 	Nest   bool `json:"nest,omitempty"`  // while holding, request the same address again: must be the same connection, no dial
+	// X: what the requester does to the *grpc.ClientConn it was handed, outside the
+	// manager. 1: Close() as soon as it has it (others may hold it, or get it
+	// later); 2: Close() at the end of its hold, before its release; 3: Close()
+	// after its release; 4: Connect() as soon as it has it (the transport dialer
+	// refuses: TRANSIENT_FAILURE, gRPC's back-off timers run in virtual time).
+	// A connection that a requester closed is excused from "never SHUTDOWN while
+	// held" and from "no dial while held" (what the manager owes a requester of an
+	// address whose connection was closed behind its back is not stated); every
+	// other oracle is unchanged, in particular for connections dialled afterwards.
+	X int `json:"x,omitempty"`
 }
 
 const stormTick = time.Millisecond
@@ -130,6 +141,22 @@ type storm struct {
 	viol      *verr
 	cs        []stormCallerState
 	labels    map[string]bool
+	xclosed   map[*grpc.ClientConn]bool // closed by a requester itself; recorded before the call
+}
+
+// closeOutside: a requester closes the connection it was handed.
+func (s *storm) closeOutside(who string, cc *grpc.ClientConn, label string) {
+	s.mu.Lock()
+	s.xclosed[cc] = true
+	s.labels[label] = true
+	s.mu.Unlock()
+	s.guarded("Close() by "+who, func() { cc.Close() })
+}
+
+func (s *storm) closedOutside(cc *grpc.ClientConn) bool {
+	s.mu.Lock()
+	defer s.mu.Unlock()
+	return s.xclosed[cc]
 }
 
 func (s *storm) now() time.Duration { return time.Since(s.t0) }
@@ -218,7 +245,12 @@ func (s *storm) dial(ctx context.Context, target string, opts ...grpc.DialOption
 	case cancelled:
 		err = &stormErr{inv: inv, cause: ctx.Err()}
 	case d.OK:
-		cc, err = grpc.NewClient("passthrough:///c16", opts...) // the spelling of the address is never parsed by gRPC
+		// the spelling of the address is never parsed by gRPC; a transport is only
+		// attempted when a requester calls Connect() (X=4), and is refused
+		o := append(append([]grpc.DialOption(nil), opts...), grpc.WithContextDialer(func(context.Context, string) (net.Conn, error) {
+			return nil, errors.New("c16: connection refused (scripted)")
+		}))
+		cc, err = grpc.NewClient("passthrough:///c16", o...)
 	default:
 		err = &stormErr{inv: inv}
 	}
@@ -378,7 +410,11 @@ func (s *storm) caller(i int) {
 		return
 	}
 	if conn.GetState() == connectivity.Shutdown {
-		s.violate("closed-while-held", "%s got the connection of dial #%d at tick %d already closed (state SHUTDOWN)", who, inv.id, tickOf(s1))
+		if s.closedOutside(conn) {
+			s.label("outside:handed-a-connection-that-a-requester-closed")
+		} else {
+			s.violate("closed-while-held", "%s got the connection of dial #%d at tick %d already closed (state SHUTDOWN)", who, inv.id, tickOf(s1))
+		}
 	}
 	s.mu.Lock()
 	n0 := s.perAddr[ai]
@@ -389,6 +425,13 @@ func (s *storm) caller(i int) {
 	s.mu.Unlock()
 	if inv.origin != i {
 		s.label("joined-another-requesters-dial-or-connection")
+	}
+	switch c.X {
+	case 1:
+		s.closeOutside(who, conn, "outside:close-by-holder-at-once")
+	case 4:
+		s.guarded("Connect() by "+who, conn.Connect)
+		s.label("outside:connect-by-holder-refused-transport")
 	}
 	if c.Ctx == 2 && c.Cancel > 0 && time.Duration(c.Cancel)*stormTick < s1 && time.Duration(c.Cancel)*stormTick >= s0 {
 		if inv.origin != i {
@@ -402,7 +445,7 @@ func (s *storm) caller(i int) {
 		s.guarded("nested Connection of "+who, func() {
 			c2, d2, e2 = s.m.Connection(context.Background(), s.tab[ai], connection.DEFAULT)
 		})
-		if e2 != nil || c2 != conn {
+		if (e2 != nil || c2 != conn) && !s.closedOutside(conn) {
 			s.violate("redial-while-live", "%s holds the connection of dial #%d unreleased and asked for %s again at tick %d: got (same connection: %v, error: %v) instead of the connection it holds", who, inv.id, addr, tickOf(s.now()), c2 == conn, e2)
 		}
 		if d2 != nil {
@@ -413,14 +456,21 @@ func (s *storm) caller(i int) {
 	if c.Hold > 0 {
 		time.Sleep(time.Duration(c.Hold) * stormTick)
 	}
-	if conn.GetState() == connectivity.Shutdown {
+	if st := conn.GetState(); st == connectivity.TransientFailure || st == connectivity.Connecting {
+		s.label("outside:held-connection-" + st.String())
+	}
+	if conn.GetState() == connectivity.Shutdown && s.closedOutside(conn) {
+		s.label("outside:held-connection-closed-by-a-requester")
+	} else if conn.GetState() == connectivity.Shutdown {
 		s.violate("closed-while-held", "the connection of dial #%d (%s) is closed (state SHUTDOWN) at tick %d although %s, which got it at tick %d, has not released it", inv.id, addr, tickOf(s.now()), who, tickOf(s1))
 	}
 	s.mu.Lock()
 	n1 := s.perAddr[ai]
 	s.holders[ai]--
 	s.mu.Unlock()
-	if n1 != n0 {
+	if n1 != n0 && s.closedOutside(conn) {
+		s.label("outside:fresh-dial-while-requester-closed-connection-is-held")
+	} else if n1 != n0 {
 		s.violate("redial-while-live", "the dial function was invoked %d more time(s) for %s between tick %d and tick %d, while %s held the connection of dial #%d unreleased", n1-n0, addr, tickOf(s1), tickOf(s.now()), who, inv.id)
 	}
 	if c.Ctx == 2 && c.Cancel > 0 && time.Duration(c.Cancel)*stormTick >= s1 && time.Duration(c.Cancel)*stormTick < s.now() {
@@ -429,10 +479,16 @@ func (s *storm) caller(i int) {
 	if c.Rel > 0 {
 		s.label("concurrent-release-of-the-same-done-func")
 	}
+	if c.X == 2 {
+		s.closeOutside(who, conn, "outside:close-by-holder-before-its-release")
+	}
 	s.release("done func of "+who, done, 1+c.Rel, c.Again)
 	s.mu.Lock()
 	st.released, st.relTick = true, s.now()
 	s.mu.Unlock()
+	if c.X == 3 {
+		s.closeOutside(who, conn, "outside:close-after-own-release")
+	}
 }
 
 // waitOrStuck waits for ch; false if the bubble went quiescent for good first.
@@ -514,7 +570,7 @@ func runStormBubble(sc *StormCase) (stormStats, *verr) {
 	if sc.Addrs < 1 || sc.Addrs > 4096 || len(sc.Callers) < 1 || len(sc.Callers) > 4096 || len(sc.Dials) < 1 {
 		return stormStats{}, newVerr("harness-error", "storm case out of range: %d addresses, %d requesters, %d dial scripts", sc.Addrs, len(sc.Callers), len(sc.Dials))
 	}
-	s := &storm{sc: sc, t0: time.Now(), idx: map[string]int{}, labels: map[string]bool{},
+	s := &storm{sc: sc, t0: time.Now(), idx: map[string]int{}, labels: map[string]bool{}, xclosed: map[*grpc.ClientConn]bool{},
 		perAddr: make([]int, sc.Addrs), inflight: make([]int, sc.Addrs), holders: make([]int, sc.Addrs), cs: make([]stormCallerState, len(sc.Callers))}
 	var distinct bool
 	if s.tab, distinct = addrTable(sc.Names, sc.Addrs); !distinct {
